@@ -1,5 +1,6 @@
 import OpcuaModel.Model.Recv
 import OpcuaModel.Model.RecvSpec
+import OpcuaModel.Model.RecvBridge
 /-
   C12 — chunk streams from any conforming peer are reassembled correctly.
 
@@ -127,6 +128,75 @@ theorem C12_repeated_number_skipped (c d : Chunk) (t : List Chunk) (h : d.seq = 
   cases t with
   | nil => simp [mergeChunks, mergeLoop, h]
   | cons e r => simp [mergeChunks, mergeLoop, h]
+
+/-! ### the whole stack: interleaved sessions on the byte level (C07's model)
+
+  `Chunk.sendSession` (C07, `Model/Chunk.lean`) is the byte-level sender: service
+  bodies → chunks → sequence numbers → signed / encrypted wire chunks.  Several
+  sessions with pairwise different request ids write to one channel; their chunk
+  streams may interleave in any way.  `RecvBridge.noninterference` (the
+  per-request-id locality of `Chunk.receiveStep`) and `Chunk.session_roundtrip`
+  give: what `Receive` returns for the chunks of session `k` is exactly the
+  list of session `k`'s messages. -/
+
+open Opcua.Chunk Opcua.RecvBridge in
+/-- **Interleaved sessions through the whole receive stack.**  `sessions` =
+    start counter and messages (request id, body) of each sender; `s` = ANY
+    interleaving of their wire streams (every chunk tagged with its session;
+    `stream k s` is what session `k` wrote, in order).  Request ids of different
+    sessions are different, every message respects the receiver's limits and
+    has nothing buffered.  Then, for every session `k`, the non-`continue`
+    results `Receive` produces at the chunks of session `k` are exactly that
+    session's messages, in order, with their request ids, channel id and bodies. -/
+theorem C12_stack_interleaved {S R : Side} (hp : Paired S R) (insts : Nat → List Side) (lim : Limits)
+    (maxBody : Nat) (hmb : 0 < maxBody) (chan tok : Nat) (hc : chan < 4294967296)
+    (hi : ∃ rest, (insts chan).reverse = R :: rest)
+    (sessions : List (Int × List (Nat × Bytes))) (t : Table)
+    (hm : ∀ ss ∈ sessions, SeqInv ss.1 ∧ ∀ m ∈ ss.2, m.1 < 4294967296 ∧ m.2.length < 4294967296 ∧ t m.1 = [] ∧
+      (lim.maxChunkCount = 0 ∨ m.2.length / maxBody ≤ lim.maxChunkCount) ∧
+      (lim.maxMessageSize = 0 ∨ m.2.length ≤ lim.maxMessageSize))
+    (hdis : ∀ (i j : Nat) (hi' : i < sessions.length) (hj : j < sessions.length), i ≠ j →
+      ∀ a ∈ sessions[i].2, ∀ b ∈ sessions[j].2, a.1 ≠ b.1)
+    (s : List (Nat × Bytes)) (htag : ∀ x ∈ s, x.1 < sessions.length)
+    (hstream : ∀ (k : Nat) (hk : k < sessions.length), ∃ seq',
+      sendSession S maxBody chan tok sessions[k].1 sessions[k].2 = (seq', .ok (stream k s))) :
+    ∀ (k : Nat) (hk : k < sessions.length),
+      (((outsTagged insts lim t s).filter (fun o => o.1 == k)).map (·.2)).filterMap id =
+        sessions[k].2.map (fun m => .ok ⟨m.1, chan, m.2⟩) := by
+  intro k hk
+  -- request ids read back from the chunks of session j
+  have hreqs : ∀ (j : Nat) (hj : j < sessions.length), ∀ x ∈ s, x.1 = j →
+      ∃ r, reqOf insts x.2 = some r ∧ r ∈ sessions[j].2.map (·.1) := by
+    intro j hj x hx hxj
+    obtain ⟨sq, hs⟩ := hstream j hj
+    have hmj := (hm sessions[j] (List.getElem_mem hj)).2
+    apply session_reqs hp insts maxBody hmb chan tok hc hi sessions[j].2
+      (fun m hm' => ⟨(hmj m hm').1, (hmj m hm').2.1⟩) sessions[j].1 (stream j s) sq hs
+    simp only [stream, List.mem_map, List.mem_filter]
+    exact ⟨x, ⟨hx, by simp [hxj]⟩, rfl⟩
+  have hni := noninterference insts lim k (fun r => r ∈ sessions[k].2.map (·.1)) s t t
+    (by
+      intro x hx hxk r hr
+      obtain ⟨r', h1, h2⟩ := hreqs k hk x hx hxk
+      rw [hr] at h1; cases h1; exact h2)
+    (by
+      intro x hx hxk r hr hin
+      have hj := htag x hx
+      obtain ⟨r', h1, h2⟩ := hreqs x.1 hj x hx rfl
+      rw [hr] at h1; cases h1
+      obtain ⟨a, ha, ha'⟩ := List.mem_map.mp hin
+      obtain ⟨b, hb, hb'⟩ := List.mem_map.mp h2
+      exact hdis k x.1 hk hj (fun e => hxk e.symm) a ha b hb (by rw [ha', hb']))
+    (fun _ _ => rfl)
+  rw [hni]
+  obtain ⟨hinv, hmk⟩ := hm sessions[k] (List.getElem_mem hk)
+  obtain ⟨wire, sq, hs, -, -, hrt⟩ := session_roundtrip hp insts lim maxBody hmb chan tok hc hi sessions[k].2 t hmk sessions[k].1 hinv
+  obtain ⟨sq', hs'⟩ := hstream k hk
+  have hw : wire = stream k s := by
+    rw [hs] at hs'
+    simpa using (Prod.mk.inj hs').2
+  rw [← hw, ← receiveMany_eq_outs insts lim wire.length t wire (Nat.le_refl _)]
+  exact hrt _ (Nat.le_refl _)
 
 /-! ### non-vacuity: interleaved messages, an abort, numbering across a wrap to 5 -/
 
